@@ -268,12 +268,36 @@ func c13Populate(t *rapid.T, dir string, names []string, contents map[string][]b
 func TestC13_Analyzer(t *testing.T) {
 	rec := stat.For("C13")
 	rec.Rule("(B) temp directories holding any subset of the analyzer's marker files plus decoys, package.json in {valid with scripts, without, scripts of wrong type, malformed, 200 KiB}, Makefiles from random lines. Oracle: AnalyzeDirectory twice and on a second directory with identical content gives identical fields (except WorkingDir); no duplicate project type; never empty; generic iff it is the only element; documented anchors reported; every boost finite and >= 1. Non-trivial = at least two marker files.")
+	caseNo := 0
 	rapid.Check(t, func(t *rapid.T) {
 		markers := rapid.SliceOfNDistinct(rapid.SampledFrom(c13Markers), 0, 6, func(s string) string { return strings.ToLower(s) }).Draw(t, "markers")
 		decoys := rapid.SliceOfNDistinct(rapid.SampledFrom(c13Decoys), 0, 3, func(s string) string { return s }).Draw(t, "decoys")
 		names := append(append([]string{}, markers...), decoys...)
+		// (by case number, not drawn: two such directories in a quick run, one in 700 cases beyond)
+		caseNo++
+		crowdedDir := caseNo == 40 || caseNo%700 == 400
+		if crowdedDir {
+			// a directory of thousands of unrelated files (a downloads folder, a data dump) that also holds
+			// every documented marker: the listing is the listing, however long
+			have := map[string]bool{}
+			for _, n := range names {
+				have[strings.ToLower(n)] = true
+			}
+			for _, n := range []string{".git", "Dockerfile", "package.json", "go.mod", "requirements.txt", "Makefile"} {
+				if !have[strings.ToLower(n)] {
+					names, markers = append(names, n), append(markers, n)
+				}
+			}
+			for i, n := 0, rapid.SampledFrom([]int{5500, 8200, 12000}).Draw(t, "crowd-files"); i < n; i++ {
+				names = append(names, fmt.Sprintf("data-%05d.bin", i))
+			}
+		}
 		contents := map[string][]byte{}
 		for _, n := range names {
+			if strings.HasPrefix(n, "data-") {
+				contents[n] = nil
+				continue
+			}
 			contents[n] = c13FileContent(t, n)
 		}
 		d1, d2 := mkdirWork("c13a-"), mkdirWork("c13b-")
@@ -376,6 +400,10 @@ func TestC13_Analyzer(t *testing.T) {
 		}
 		if d := c1.GetContextDescription(); d == "" {
 			t.Fatalf("empty context description; files=%v", names)
+		}
+		if crowdedDir {
+			rec.Label("crowded-directory")
+			names = append(names[:0:0], markers...)
 		}
 		rec.Case(len(markers) >= 2, map[string]any{"files": names, "types": c1.ProjectTypes, "boost_words": len(b1)}, "analyzer")
 	})
